@@ -181,7 +181,7 @@ def run_shard(ctx):
                 cls = 'variables'
             items.append((lang, text))
             meta.append((lang, text, cls, want))
-        rs = mon.run_lines(drv, cfg, items)
+        rs = mon.run_lines(drv, cfg, items, dates=False)
         for (lang, text, cls, want), r in zip(meta, rs):
             slot = mon.last_slot(r)
             res.cases += 1
